@@ -31,6 +31,9 @@ class BiList final {
   [[nodiscard]] bool Empty() const noexcept;
 
   [[nodiscard]] Node* GetElement(std::size_t ind, bool reversed) const noexcept;
+#ifdef YACLIB_VERIF
+  [[nodiscard]] std::size_t Size() const noexcept;
+#endif
 
  private:
   Node _head;
